@@ -15,8 +15,16 @@ case "$ID" in
   C14|C15) RULES=r2,r3,r4; MAIN=./harness/cmd/vsched ;;
   *)       RULES=r1,r2,r5,r6; MAIN=./harness/cmd/vcheck ;;
 esac
-INSTR=$(./bin/instrument -repo /repo -out "$W" -rules "$RULES" -rt /verif/rt 2>"$W/instr.err") || { echo "HARNESS-ERROR: instrumentation failed: $(cat "$W/instr.err")"; exit 2; }
-if ! go build -tags verif -overlay "$W/overlay.json" -o "$W/vcheck" "$MAIN" 2>"$W/build.err"; then
+REPO="${VERIF_REPO:-/repo}"
+MODFLAG=""
+if [ "$REPO" != /repo ]; then
+  # scratch copy of the repository (mutant trials): same harness, replace directive redirected; evidence kept out of /verif/evidence
+  sed "s#=> /repo#=> $REPO#" go.mod > "$W/alt.mod"; cp go.sum "$W/alt.sum" 2>/dev/null
+  MODFLAG="-modfile=$W/alt.mod"
+  export VERIF_EVIDENCE_DIR="${VERIF_EVIDENCE_DIR:-$W/evidence}"
+fi
+INSTR=$(./bin/instrument -repo "$REPO" -out "$W" -rules "$RULES" -rt /verif/rt 2>"$W/instr.err") || { echo "HARNESS-ERROR: instrumentation failed: $(cat "$W/instr.err")"; exit 2; }
+if ! go build $MODFLAG -tags verif -overlay "$W/overlay.json" -o "$W/vcheck" "$MAIN" 2>"$W/build.err"; then
   echo "HARNESS-ERROR: harness does not build against the current tree:"; head -30 "$W/build.err"; exit 2
 fi
 "$W/vcheck" run "$ID" --tier "$TIER" --seed "$SEED" --instr "$INSTR"
